@@ -38,6 +38,12 @@ func init() {
 			bound, budget = 4, 540
 		}
 		env := map[string]string{"VERIF_TIER": c.Tier, "VERIF_BOUND": fmt.Sprint(bound), "VERIF_BUDGET_S": fmt.Sprint(budget), "GOMAXPROCS": "1"}
-		vc.RunHarnessShards(c.R, vc.HarnessRun{Bin: bin, Env: env, Tag: "c10"}, 16, 16)
+		shards := 16
+		if c.Thorough {
+			// bound 4 needs more memory than a shard's ceiling allows (goroutines of abandoned executions are never
+			// freed): four times as many shards, 16 at a time, each with a quarter of the level-1 subtrees
+			shards = 64
+		}
+		vc.RunHarnessShards(c.R, vc.HarnessRun{Bin: bin, Env: env, Tag: "c10"}, shards, 16)
 	}
 }
